@@ -32,6 +32,10 @@ pub struct E2Cfg {
     /// listens on). Empty = name resolution is not simulated in this run.
     #[serde(default)]
     pub dns: Vec<Option<Vec<usize>>>,
+    /// true: the servers run on chitchat's own `UdpTransport` (transport/udp.rs) whose system calls
+    /// are scripted through the verif seam; false: on a scripted `Transport`/`Socket` implementation
+    #[serde(default)]
+    pub raw_udp: bool,
 }
 
 /// Bound used by the seed set oracle: five refresh periods of dns_refresh_loop
@@ -60,6 +64,9 @@ pub enum E2Cmd {
     FailNextSends { i: usize, count: u32 },
     StallNextSend { i: usize, ms: u64 },
     FatalRecv { i: usize },
+    /// the next receive call of server i fails with a transient error kind (0 connection reset,
+    /// 1 connection refused, 2 out of memory); only meaningful in raw_udp runs
+    TransientRecv { i: usize, kind: u8 },
     PanicCallback { i: usize },
     Shutdown { i: usize },
     /// user code holds the state lock of server i for ms
@@ -82,6 +89,8 @@ pub enum E2Cmd {
 enum Inbox {
     Datagram(SocketAddr, Vec<u8>),
     Fatal,
+    /// a recv error of a kind the UDP transport must treat as transient (raw_udp runs only)
+    Transient(u8),
 }
 
 impl Net {
@@ -111,6 +120,8 @@ struct Net {
     /// replies seen towards the synthetic probe address
     probe_replies: u64,
     last_send_ms: HashMap<SocketAddr, u64>,
+    /// first datagram a server handed to its socket that does not decode (C19)
+    garbled: Option<String>,
 }
 
 fn probe_addr() -> SocketAddr {
@@ -119,6 +130,94 @@ fn probe_addr() -> SocketAddr {
 
 fn addr(i: usize) -> SocketAddr {
     SocketAddr::from(([10, 2, 0, 1 + i as u8], 5000 + i as u16))
+}
+
+/// What the simulated network does with one datagram handed to a socket. Err = (errno, text).
+async fn sim_send(net_arc: &Arc<Mutex<Net>>, me: SocketAddr, to: SocketAddr, bytes: Vec<u8>) -> Result<(), (i32, &'static str)> {
+    let stall = {
+        let mut net = net_arc.lock().unwrap();
+        net.stall_next.remove(&me)
+    };
+    if let Some(ms) = stall {
+        {
+            let mut net = net_arc.lock().unwrap();
+            net.stats.inc("fault_stalled_send");
+            let until = net.now() + ms;
+            net.stalled_until.insert(me, until);
+        }
+        tokio::time::sleep(Duration::from_millis(ms)).await;
+    }
+    let mut net = net_arc.lock().unwrap();
+    net.stats.inc("sends");
+    let kind = bytes.get(3).copied().unwrap_or(255) as u64;
+    if bytes.len() <= codec::MAX_DATAGRAM && net.garbled.is_none() {
+        match codec::decode(&bytes) {
+            Err(e) => net.garbled = Some(format!("{me} handed {} bytes to its socket for {to} that do not decode as a chitchat message ({e})", bytes.len())),
+            Ok((_, _, used)) if used != bytes.len() => {
+                net.garbled = Some(format!("{me} handed {} bytes to its socket for {to} of which only the first {used} are a chitchat message", bytes.len()))
+            }
+            Ok(_) => {}
+        }
+    }
+    let now = net.now();
+    net.last_send_ms.insert(me, now);
+    net.trace.u(now);
+    net.trace.u(me.port() as u64);
+    net.trace.u(to.port() as u64);
+    net.trace.u(kind);
+    net.trace.u(bytes.len() as u64);
+    if kind == 0 {
+        // SYNs of one gossip round carry the same own heartbeat (it rises once per round and
+        // once per processed message, and the round is not interleaved with message handling)
+        let own_hb = codec::decode(&bytes)
+            .ok()
+            .and_then(|(m, _, _)| m.digest().and_then(|d| d.iter().find(|(id, _)| id.addr == me).map(|(_, nd)| nd.heartbeat)))
+            .unwrap_or(0);
+        net.syn_at.entry((me, own_hb)).or_default().push(to);
+    }
+    if to == probe_addr() {
+        net.probe_replies += 1;
+        return Ok(());
+    }
+    if bytes.len() > codec::MAX_DATAGRAM {
+        net.stats.inc("fault_oversize_send_error");
+        return Err((90, "message too long"));
+    }
+    if let Some(c) = net.fail_next.get_mut(&me) {
+        if *c > 0 {
+            *c -= 1;
+            net.stats.inc("fault_send_error");
+            return Err((113, "injected send error (host unreachable)"));
+        }
+    }
+    let p = net.send_err_pct as u64;
+    if net.rng.below(100) < p {
+        net.stats.inc("fault_send_error");
+        return Err((101, "injected send error"));
+    }
+    if net.partitions.iter().any(|(a, b)| (*a == me && *b == to) || (*b == me && *a == to)) {
+        net.stats.inc("fault_partition_drop");
+        return Ok(());
+    }
+    let p = net.drop_pct as u64;
+    if net.rng.below(100) < p {
+        net.stats.inc("fault_drop");
+        return Ok(());
+    }
+    let md = net.max_delay_ms.max(1);
+    let delay = 1 + net.rng.below(md);
+    net.seq += 1;
+    let (s, due) = (net.seq, net.now() + delay);
+    net.queue.push(Reverse((due, s, me, to, bytes.clone())));
+    let p = net.dup_pct as u64;
+    if net.rng.below(100) < p {
+        net.stats.inc("fault_duplicate");
+        net.seq += 1;
+        let s = net.seq;
+        let d2 = due + net.rng.below(2000);
+        net.queue.push(Reverse((d2, s, me, to, bytes)));
+    }
+    Ok(())
 }
 
 #[derive(Clone)]
@@ -145,81 +244,7 @@ impl Transport for SimTransport {
 impl Socket for SimSocket {
     async fn send(&mut self, to: SocketAddr, msg: ChitchatMessage) -> anyhow::Result<()> {
         let bytes = msg.serialize_to_vec();
-        let stall = {
-            let mut net = self.net.lock().unwrap();
-            net.stall_next.remove(&self.addr)
-        };
-        if let Some(ms) = stall {
-            {
-                let mut net = self.net.lock().unwrap();
-                net.stats.inc("fault_stalled_send");
-                let until = net.now() + ms;
-                net.stalled_until.insert(self.addr, until);
-            }
-            tokio::time::sleep(Duration::from_millis(ms)).await;
-        }
-        let mut net = self.net.lock().unwrap();
-        net.stats.inc("sends");
-        let kind = bytes.get(3).copied().unwrap_or(255) as u64;
-        let now = net.now();
-        net.last_send_ms.insert(self.addr, now);
-        net.trace.u(now);
-        net.trace.u(self.addr.port() as u64);
-        net.trace.u(to.port() as u64);
-        net.trace.u(kind);
-        net.trace.u(bytes.len() as u64);
-        if kind == 0 {
-            // SYNs of one gossip round carry the same own heartbeat (it rises once per round and
-            // once per processed message, and the round is not interleaved with message handling)
-            let own_hb = codec::decode(&bytes)
-                .ok()
-                .and_then(|(m, _, _)| m.digest().and_then(|d| d.iter().find(|(id, _)| id.addr == self.addr).map(|(_, nd)| nd.heartbeat)))
-                .unwrap_or(0);
-            net.syn_at.entry((self.addr, own_hb)).or_default().push(to);
-        }
-        if to == probe_addr() {
-            net.probe_replies += 1;
-            return Ok(());
-        }
-        if bytes.len() > codec::MAX_DATAGRAM {
-            net.stats.inc("fault_oversize_send_error");
-            anyhow::bail!("message too long");
-        }
-        if let Some(c) = net.fail_next.get_mut(&self.addr) {
-            if *c > 0 {
-                *c -= 1;
-                net.stats.inc("fault_send_error");
-                anyhow::bail!("injected send error (host unreachable)");
-            }
-        }
-        let p = net.send_err_pct as u64;
-        if net.rng.below(100) < p {
-            net.stats.inc("fault_send_error");
-            anyhow::bail!("injected send error");
-        }
-        if net.partitions.iter().any(|(a, b)| (*a == self.addr && *b == to) || (*b == self.addr && *a == to)) {
-            net.stats.inc("fault_partition_drop");
-            return Ok(());
-        }
-        let p = net.drop_pct as u64;
-        if net.rng.below(100) < p {
-            net.stats.inc("fault_drop");
-            return Ok(());
-        }
-        let md = net.max_delay_ms.max(1);
-        let delay = 1 + net.rng.below(md);
-        net.seq += 1;
-        let (s, due) = (net.seq, net.now() + delay);
-        net.queue.push(Reverse((due, s, self.addr, to, bytes.clone())));
-        let p = net.dup_pct as u64;
-        if net.rng.below(100) < p {
-            net.stats.inc("fault_duplicate");
-            net.seq += 1;
-            let s = net.seq;
-            let d2 = due + net.rng.below(2000);
-            net.queue.push(Reverse((d2, s, self.addr, to, bytes)));
-        }
-        Ok(())
+        sim_send(&self.net, self.addr, to, bytes).await.map_err(|e| anyhow::anyhow!(e.1))
     }
 
     async fn recv(&mut self) -> anyhow::Result<(SocketAddr, ChitchatMessage)> {
@@ -237,8 +262,51 @@ impl Socket for SimSocket {
                     }
                 }
                 Some(Inbox::Fatal) => anyhow::bail!("injected fatal recv error"),
+                Some(Inbox::Transient(_)) => continue,
                 None => anyhow::bail!("socket closed"),
             }
+        }
+    }
+}
+
+/// System-call level socket for chitchat's own UdpTransport (verif seam in transport/udp.rs).
+struct SimRaw {
+    addr: SocketAddr,
+    net: Arc<Mutex<Net>>,
+    rx: tokio::sync::Mutex<mpsc::UnboundedReceiver<Inbox>>,
+}
+
+#[async_trait]
+impl chitchat::verif::SimUdpSocket for SimRaw {
+    async fn recv_from(&self, buf: &mut [u8]) -> std::io::Result<(usize, SocketAddr)> {
+        let mut rx = self.rx.lock().await;
+        match rx.recv().await {
+            Some(Inbox::Datagram(from, bytes)) => {
+                // as the kernel: a datagram longer than the buffer is cut
+                let n = bytes.len().min(buf.len());
+                buf[..n].copy_from_slice(&bytes[..n]);
+                if n < bytes.len() {
+                    self.net.lock().unwrap().stats.inc("fault_oversize_datagram_cut_at_recv");
+                }
+                Ok((n, from))
+            }
+            Some(Inbox::Fatal) => Err(std::io::Error::from_raw_os_error(9)),
+            Some(Inbox::Transient(kind)) => {
+                self.net.lock().unwrap().stats.inc("fault_transient_recv_error");
+                Err(std::io::Error::from(match kind % 3 {
+                    0 => std::io::ErrorKind::ConnectionReset,
+                    1 => std::io::ErrorKind::ConnectionRefused,
+                    _ => std::io::ErrorKind::OutOfMemory,
+                }))
+            }
+            None => std::future::pending().await,
+        }
+    }
+
+    async fn send_to(&self, payload: &[u8], to_addr: SocketAddr) -> std::io::Result<usize> {
+        match sim_send(&self.net, self.addr, to_addr, payload.to_vec()).await {
+            Ok(()) => Ok(payload.len()),
+            Err((errno, _)) => Err(std::io::Error::from_raw_os_error(errno)),
         }
     }
 }
@@ -345,6 +413,7 @@ impl Run {
             syn_at: BTreeMap::new(),
             probe_replies: 0,
             last_send_ms: HashMap::new(),
+            garbled: None,
         }));
         let transport = SimTransport { net: net.clone() };
         let mut srv = Vec::new();
@@ -385,7 +454,19 @@ impl Run {
                     true
                 })),
             };
-            let handle = spawn_chitchat(config, vec![("k".into(), format!("v{i}"))], &transport).await.expect("spawn");
+            let handle = if cfg.raw_udp {
+                let net2 = net.clone();
+                chitchat::verif::set_udp_factory(Some(Box::new(move |bind_addr| {
+                    let (tx, rx) = mpsc::unbounded_channel();
+                    net2.lock().unwrap().inboxes.insert(bind_addr, tx);
+                    Ok(Box::new(SimRaw { addr: bind_addr, net: net2.clone(), rx: tokio::sync::Mutex::new(rx) }) as Box<dyn chitchat::verif::SimUdpSocket>)
+                })));
+                let h = spawn_chitchat(config, vec![("k".into(), format!("v{i}"))], &chitchat::transport::UdpTransport).await.expect("spawn");
+                chitchat::verif::set_udp_factory(None);
+                h
+            } else {
+                spawn_chitchat(config, vec![("k".into(), format!("v{i}"))], &transport).await.expect("spawn")
+            };
             srv.push(Srv { handle: Some(handle), id, panic_flag: flag, last_hb: 0, last_hb_ms: 0, excused_until_ms: 0, ended: false });
         }
         {
@@ -516,6 +597,16 @@ impl Run {
     }
 
     async fn apply(&mut self, cmd: &E2Cmd) -> Result<(), Violation> {
+        let r = self.apply_inner(cmd).await;
+        if r.is_ok() {
+            if let Some(g) = self.net.lock().unwrap().garbled.take() {
+                return Err(viol(self.step, "C19.garbled_send", g));
+            }
+        }
+        r
+    }
+
+    async fn apply_inner(&mut self, cmd: &E2Cmd) -> Result<(), Violation> {
         self.step += 1;
         if self.keep_log {
             self.log.push(format!("[{} t={}] {:?}", self.step, self.now(), cmd));
@@ -611,6 +702,17 @@ impl Run {
             E2Cmd::StallNextSend { i, ms } => {
                 if *i < n {
                     self.net.lock().unwrap().stall_next.insert(addr(*i), *ms);
+                    self.nontrivial = true;
+                }
+                Ok(())
+            }
+            E2Cmd::TransientRecv { i, kind } => {
+                if !self.cfg.raw_udp || *i >= n || self.srv[*i].ended {
+                    return Ok(());
+                }
+                let tx = self.net.lock().unwrap().inboxes.get(&addr(*i)).cloned();
+                if let Some(tx) = tx {
+                    let _ = tx.send(Inbox::Transient(*kind));
                     self.nontrivial = true;
                 }
                 Ok(())
@@ -1026,16 +1128,19 @@ fn gen_cmds(seed: u64) -> (E2Cfg, Vec<E2Cmd>) {
         seeds: (0..n).filter(|_| r.chance(0.5)).collect(),
         dead_grace_ms: *r.pick(&[20_000u64, 3_600_000]),
         dns: Vec::new(),
+        raw_udp: false,
     };
     // name resolution runs draw from their own stream, so the other runs keep their commands
     let mut r2 = Rng::new(seed ^ 0x5EED_D45_0000_0001);
     let dns_on = r2.chance(0.3);
+    let raw_udp = r2.chance(0.5);
     let mut cfg = cfg;
     let slots_for = |r2: &mut Rng, i: usize| -> Vec<usize> { (0..n + 2).filter(|s| *s != i && r2.chance(0.45)).collect() };
     if dns_on {
         cfg.interval_ms = cfg.interval_ms.max(1000);
         cfg.dns = (0..n).map(|i| if r2.chance(0.75) { Some(slots_for(&mut r2, i)) } else { None }).collect();
     }
+    cfg.raw_udp = raw_udp;
     let cfg = cfg;
     let mut cmds = Vec::new();
     let steps = r.range(6, 30);
@@ -1101,6 +1206,8 @@ fn gen_cmds(seed: u64) -> (E2Cfg, Vec<E2Cmd>) {
                 4..=6 => E2Cmd::Advance { ms: *r2.pick(&[20_000u64, 61_000, 125_000, 301_000, 301_000]) },
                 _ => E2Cmd::SeedCheck { i },
             }
+        } else if raw_udp && r2.chance(0.08) {
+            E2Cmd::TransientRecv { i: r2.usize_below(n), kind: r2.below(3) as u8 }
         } else {
             c
         };
@@ -1190,6 +1297,6 @@ impl Engine for E2 {
         ]
     }
     fn stub_components(&self) -> Vec<&'static str> {
-        vec!["chitchat/src/transport/udp.rs and channel.rs (replaced by a scripted Transport/Socket; decode-or-skip mirrors UdpSocket::receive_one)", "the system resolver (seed host names resolve through a scripted table behind the verif hook; dns_refresh_loop itself runs)"]
+        vec!["the recv_from/send_to/bind system calls under chitchat/src/transport/udp.rs (scripted through the verif seam in half of the runs; in the other half the whole file is replaced by a scripted Transport/Socket whose decode-or-skip mirrors UdpSocket::receive_one); transport/channel.rs", "the system resolver (seed host names resolve through a scripted table behind the verif hook; dns_refresh_loop itself runs)"]
     }
 }
